@@ -266,9 +266,50 @@ def step(ctx, nodes, label, f, op, names, paths, wit, query_nodes=None):
 
 # ---- exhaustive part ------------------------------------------------------------------------------
 
-def fresh_nodes(names):
-    nodes = [Node(nm) for nm in names]
+def fresh_nodes(names, same_id_as=None):
+    """same_id_as[i] = j: node i is a distinct object carrying the id string of node j (the same saved model loaded twice, ids chosen
+    by the caller); every operation is about objects, never about id strings."""
+    nodes = []
+    for i, nm in enumerate(names):
+        j = same_id_as[i] if same_id_as else None
+        nodes.append(Node(nm, id=nodes[j].id) if j is not None and j < i else Node(nm))
     return nodes, {id(n): i for i, n in enumerate(nodes)}
+
+
+def do_copy(ctx, nodes, label, f, src, wit):
+    """copy() of the subtree at src becomes a new root of the forest (model: fresh labels, same names, same shape); the queries that
+    follow are asked on the original and on the copy."""
+    sub = [src] + f.descendants(src)
+    try:
+        c = nodes[src].copy()
+    except Exception as e:
+        ctx.violation(f"valid-edit-raises:copy:{type(e).__name__}", f"copy of node {src} raised {e!r}", wit())
+        return None
+    c.parent = None
+    real, stack = [], [c]
+    while stack:
+        x = stack.pop()
+        real.append(x)
+        stack.extend(reversed(x.children))
+    ctx.evaluated()
+    ctx.count("copies_made_in_histories")
+    if len(real) != len(sub) or any(id(x) in label for x in real):
+        ctx.violation("copy-shape-differs", f"copy of node {src}: {len(real)} nodes (shared with the forest: {sum(id(x) in label for x in real)}), "
+                                            f"the subtree has {len(sub)}", wit())
+        return None
+    m = {}
+    for o, x in zip(sub, real):
+        m[o] = len(nodes)
+        label[id(x)] = len(nodes)
+        nodes.append(x)
+        f.names.append(f.names[o])
+        f.kids.append([])
+        f.par.append(None)
+    for o in sub:
+        f.kids[m[o]] = [m[k] for k in f.kids[o]]
+        for k in f.kids[o]:
+            f.par[m[k]] = m[o]
+    return m[src]
 
 
 def model_from_state(names, state):
@@ -346,20 +387,38 @@ def history_of(origin, state):
 
 def random_history(ctx, n_nodes, n_ops, hist_no):
     rng = ctx.rng
-    pool = ["a", "b", "c", "d"]
+    # names that contain each other (and the empty name) in half of the histories; id strings shared by distinct nodes in a third
+    pool = ["a", "b", "c", "d"] if hist_no % 2 == 0 else ["a", "ab", "abc", "b", ""]
     names = [rng.choice(pool) for _ in range(n_nodes)]
-    nodes, label = fresh_nodes(names)
+    same_id_as = [rng.randrange(i) if i and rng.random() < 0.35 else None for i in range(n_nodes)] if hist_no % 3 == 1 else None
+    if same_id_as:
+        ctx.count("histories_with_shared_id_strings")
+    nodes, label = fresh_nodes(names, same_id_as)
+    names = list(names)
     f = Forest(names)
     qnames = pool + ["zz"]
     history = []
 
     def wit():
-        return {"names": names, "history": [list(o) for o in history[:-1]], "op": list(history[-1])}
+        return {"names": names[:n0], "same_id_as": same_id_as, "history": [list(o) for o in history[:-1]], "op": list(history[-1])}
 
+    n0 = n_nodes
     for step_no in range(n_ops):
         k = rng.random()
+        n_nodes = len(nodes)
         p = rng.randrange(n_nodes)
         op = None
+        if k < 0.03 and n_nodes < 90:
+            history.append(("copy", p))
+            new_root = do_copy(ctx, nodes, label, f, p, wit)
+            if new_root is None:
+                break
+            if not check_structure(ctx, nodes, label, f, wit, "copy"):
+                break
+            both = sorted({p, new_root} | set(f.kids[p][:2]) | set(f.kids[new_root][:2]))
+            check_queries(ctx, nodes, label, f, [rng.choice(qnames), f.names[f.kids[p][0]] if f.kids[p] else "zz"], [(), (rng.choice(pool),)], wit, both)
+            ctx.distinct((hist_no, step_no, "copy"))
+            continue
         if k < 0.45:
             roots = [c for c in range(n_nodes) if f.may_attach(p, c)]
             if roots:
@@ -450,11 +509,25 @@ def replay(ctx, witness):
         ctx.distinct(1)
         ctx.distinct(2)
         return
-    names = witness["names"]
-    nodes, label = fresh_nodes(names)
+    names = list(witness["names"])
+    nodes, label = fresh_nodes(names, witness.get("same_id_as"))
     f = Forest(names)
-    for op in witness["history"]:
-        op = tuple(op)
+    qn = sorted(set(names)) + ["zz"]
+    paths = [p for j in (0, 1, 2) for p in itertools.product(sorted(set(names)), repeat=j)]
+    monitored = witness.get("same_id_as") is not None or any(o and o[0] == "copy" for o in witness["history"] + [witness["op"]]) or "" in names \
+        or "ab" in names
+    seq = [tuple(o) for o in witness["history"]] + ([tuple(witness["op"])] if monitored else [])
+    for op in seq:
+        if op[0] == "copy":
+            if do_copy(ctx, nodes, label, f, op[1], lambda: witness) is None:
+                break
+            check_queries(ctx, nodes, label, f, qn, paths[:8], lambda: witness)
+            continue
+        if monitored:
+            # what a query answered earlier in the history can matter (an index built then): the whole history runs under the monitor
+            if not step(ctx, nodes, label, f, op, qn, paths[:8], lambda: witness):
+                break
+            continue
         try:
             apply_real(nodes, op)
         except Exception:
@@ -463,8 +536,7 @@ def replay(ctx, witness):
             apply_model(f, op)
         except ModelError:
             pass
-    qn = sorted(set(names)) + ["zz"]
-    paths = [p for j in (0, 1, 2) for p in itertools.product(sorted(set(names)), repeat=j)]
-    step(ctx, nodes, label, f, tuple(witness["op"]), qn, paths, lambda: witness)
+    if not monitored:
+        step(ctx, nodes, label, f, tuple(witness["op"]), qn, paths, lambda: witness)
     ctx.distinct(1)
     ctx.distinct(2)
